@@ -12,7 +12,7 @@ COQ_IMPORTS = ("From Synnax Require Import Common.Base Cesium.Store Cesium.Index
                "Cesium.UnaryIter Cesium.UnaryWrite Cesium.Read Monitors.Mon_C01.")
 COQ_EXTRA = "Local Open Scope Z_scope."
 CASE_TYPE = "case_t"
-COUNTS = {"quick": 700, "thorough": 20000}
+COUNTS = {"quick": 1200, "thorough": 20000}
 SHARD = 60
 OPS_KEY = "ops"
 RULE = ("histories through the public cesium API: 1-3 index channels x 0-3 data channels (int64/uint8/float32/string/json), "
@@ -28,11 +28,12 @@ TRUSTED = ["harness package verifh/cesh: sample value <-> bytes bijection per da
 ASSUMES = ["time stamps within [0, 2^63-1]", "one writer session open at a time (file acquisition is then deterministic)",
            "explicit index frames only (no AutoIndex / wall clock); persist interval irrelevant (no crash)",
            "variable-length offset cache is transparent"]
-PARTIAL = ("C01_read_exact_partial is proved for stored layouts satisfying the decidable guard layout_ok (every data domain inside one "
-           "index domain); that every legal history produces such a layout whose content equals `committed h` (write->layout "
-           "refinement: insert/update of the domain index, rollover, groups not writing their index) is NOT proved: it is observed "
-           "on every run (model layout vs implementation reads, implementation reads vs committed h). Proved on the write side: "
-           "uncommitted writes, Close and Reopen change no read (C01_uncommitted_invisible).")
+PARTIAL = ("C01_read_exact_partial is proved for every stored layout satisfying layout_ok (decidable check layout_okb proved sound: "
+           "data domains within contiguous runs of index domains, index rollover inside a data domain included; satisfied by every "
+           "generated history — see layout_guard_sample); that every legal history produces such a layout whose content equals "
+           "`committed h` (write->layout refinement: insert/update of the domain index, rollover, groups not writing their index) "
+           "is NOT proved: it is observed on every run (model layout vs implementation reads, implementation reads vs committed h). "
+           "Proved on the write side: uncommitted writes, Close and Reopen change no read (C01_uncommitted_invisible).")
 
 
 def c_hop(o):
@@ -171,6 +172,27 @@ def model_dump(case, r):
     return coq_print(PID, COQ_IMPORTS, COQ_EXTRA + "\nEval vm_compute in model_dump (%s)." % t)[-8000:]
 
 
+def extra(ctx, n=120):
+    """share of generated histories whose final model layout (every channel) lies inside the
+    decidable hypothesis (layout_okb) of C01_read_exact_partial"""
+    import random
+    rng = random.Random(ctx.seed * 15485863 + 5)
+    cases = [gen_case(rng, ctx.tier) for _ in range(n)]
+    terms = []
+    for c in cases:
+        s = c["setup"]
+        terms.append("Case %s %s [%s] [] [] [] []" % (z(s["cap"]), cesgen.c_chans(s["channels"]),
+                     ";".join(c_hop(o) for o in c["ops"] if o["op"] != "read")))
+    out = coq_print(PID, COQ_IMPORTS, COQ_EXTRA + "\nEval vm_compute in map in_guard [%s]." % ";\n".join(terms), timeout=600)
+    out = re.sub(r"\s+", " ", out)
+    m = re.search(r"= (\[[a-z; ]*\]) : list bool", out)
+    if m:
+        vals = [x.strip() for x in m.group(1)[1:-1].split(";") if x.strip()]
+        ctx.extra_cov["layout_guard_sample"] = "%d of %d generated histories end in a layout satisfying layout_okb on every channel" % (vals.count("true"), len(vals))
+    else:
+        ctx.notes.append("guard coverage could not be evaluated")
+
+
 def consts(repo):
     """file-size factors of domain.Config.Override / fileController.realFileSizeCap and the default cap"""
     src = open(os.path.join(repo, "cesium/internal/domain/db.go")).read()
@@ -207,7 +229,7 @@ LEVEL_TEXT = ("Machine-checked Coq theorems over an executable Gallina model of 
               "implementation's reads with `committed h` (also after Close+Open).")
 LEVEL_NOTE = ("Trusted: Coq kernel/vm_compute; hand-written model (tied by correspondence); harness (public API only) and its sample<->bytes "
               "codec; generator. Theorems closed under the global context. partial: the write->layout refinement (history => layout_ok and "
-              "layout_assoc = committed h) is observed, not proved; read exactness carries the guard layout_ok. Finding F25 (index Distance "
+              "layout_assoc = committed h) is observed, not proved; read exactness carries the hypothesis layout_ok. Finding F25 (index Distance "
               "reported a range ending on an index file-rollover boundary as discontinuous => reads returned nothing) was found by this "
               "check and repaired by fix commit 5e59704 (C01_legacy_distance_refuted keeps the witness). One writer session at a time; "
               "explicit index frames only; no crash/persistence modelling (that is C02).")
